@@ -406,6 +406,43 @@ func runC14(c *Ctx) {
 		r.Add(core.Obligation{Rule: "router-fields", Key: "router-fields every valid advertisement reaches the table", Func: core.FuncName(pp), Pos: c.P.Pos(core.PosOf(site.(ssa.Instruction))), Status: us,
 			Basis: "every path from the advertisement's IsValid to a nil return passes findOrCreateRouter", Detail: det})
 	}
+	// what an advertisement from address A says is recorded for A: findOrCreateRouter hands back the entry stored under
+	// the address it was asked for - the result of LANRouters[ip], or the new entry it stores under ip - never another
+	// entry (one found by MAC records router B's advertisement in router A's entry, and B is not in the table)
+	r.Rule("router-key", "findOrCreateRouter returns the entry keyed by the address it was given", 2)
+	if fn := c.P.Method("handlers/icmp_spoofer", "Handler6", "findOrCreateRouter"); fn != nil && len(fn.Params) == 3 {
+		ipParam := ssa.Value(fn.Params[2])
+		stored := map[ssa.Value]bool{}
+		core.EachInstr(fn, func(i ssa.Instruction) {
+			if mu, ok := i.(*ssa.MapUpdate); ok && strings.HasSuffix(norm(mu.Map), ".LANRouters") && mu.Key == ipParam {
+				stored[mu.Value] = true
+			}
+		})
+		kgr := core.NewKeyGen()
+		core.EachInstr(fn, func(i ssa.Instruction) {
+			ret, ok := i.(*ssa.Return)
+			if !ok || len(ret.Results) == 0 {
+				return
+			}
+			v := ret.Results[0]
+			okv := stored[v]
+			if ex, isE := v.(*ssa.Extract); isE && ex.Index == 0 {
+				if lk, isL := ex.Tuple.(*ssa.Lookup); isL && strings.HasSuffix(norm(lk.X), ".LANRouters") && lk.Index == ipParam {
+					okv = true
+				}
+			}
+			if lk, isL := v.(*ssa.Lookup); isL && strings.HasSuffix(norm(lk.X), ".LANRouters") && lk.Index == ipParam {
+				okv = true
+			}
+			st, det := core.Proved, ""
+			if !okv {
+				st = core.Violated
+				det = "findOrCreateRouter returns " + norm(v) + ", which is neither LANRouters[ip] nor the entry it stores under ip: the advertisement of the router at ip is recorded in another router's entry"
+			}
+			r.Add(core.Obligation{Rule: "router-key", Key: strings.TrimSuffix(kgr.Key("router-key findOrCreateRouter return"), "#0"), Func: core.FuncName(fn), Pos: c.P.Pos(core.PosOf(i)), Status: st,
+				Basis: "returned router = LANRouters[ip] or the value stored under ip", Detail: det})
+		})
+	}
 	// each option goes into its own slot: the receiver of every unmarshal call of the RA option parser is the field that
 	// belongs to the option type the call is reached under (source link-layer address 1, target 2, MTU 5, route
 	// information 24, RDNSS 25, search list 31; the prefix option 3 is decoded into a local that is appended)
